@@ -18,7 +18,7 @@ func init() {
 		Explanation: "Decided: CODEC the byte regions the client reads from a sync reply (key 0:32, offset 32:36 LE, bitfield 36:540, new GCA 540:572, new id 572:576 LE, server entries from 576, GCA signature len-136:len-72, time len-72:len-64 LE, server signature len-64:len) " +
 			"equal the regions the server writes (shifted by its 2-byte length prefix), for both branches (server list and migration order); the per-server entry 32|1|1|n|2|2|2|64 is the same in the server's inline writer, AuthorizedServer.Serialize and the client's reader; " +
 			"bit i of the bitfield is byte i/8, bit i%8 (LSB first) on both sides and is set iff the slot's PowerOutput > 0; an unknown id gets a single zero byte, which the client's 2-byte length read rejects. " +
-			"AUTH every return of the client parser with a nil error is dominated by: the freshness test (equivalent to |now - t| <= 86400 for clocks at least one day after the epoch), glow.Verify(contacted server's key, reply[:len-64], reply[len-64:]), " +
+			"SIGNED-SPAN what the server sends is B | Sign(B[2:], static key) for the very B sent, i.e. the signature covers exactly the span the client verifies; AUTH every return of the client parser with a nil error is dominated by: the freshness test (equivalent to |now - t| <= 86400 for clocks at least one day after the epoch), glow.Verify(contacted server's key, reply[:len-64], reply[len-64:]), " +
 			"reply key == the device's own public key, (new GCA == 0) or glow.Verify(current GCA, 'EquipmentMigration' | key | reply[540:len-136], reply[len-136:len-72]), and, for every parsed server entry, glow.Verify(new GCA if present else current GCA, entry.SigningBytes(), entry.GCAAuthorization); " +
 			"PURE the parser has no write effect on the client's state, and the caller uses its results only on the err == nil edge (C17). " +
 			"NOT decided: behaviour for replies longer than the 16-bit length prefix allows (server-side truncation of the length; noted), cryptographic strength.",
@@ -39,11 +39,22 @@ func findSyncParser(p *an.Program) *ssa.Function {
 }
 
 func runC10(c *an.Ctx) {
+	parser, respBuf := parserAcceptance(c)
+	if parser == nil {
+		return
+	}
+	replyLayout(c, parser, respBuf)
+	bitOrder(c)
+}
+
+// parserAcceptance: the client's sync parser accepts a reply only when it is
+// authentic in every respect, and changes nothing when it rejects (AUTH and PURE rules).
+func parserAcceptance(c *an.Ctx) (*ssa.Function, *an.Term) {
 	p := c.P
 	parser := findSyncParser(p)
 	if parser == nil {
 		c.Undecided("ANCHOR", nil, 0, "sync-parser", "client sync parser not found", "anchor missing")
-		return
+		return nil, nil
 	}
 	c.Scope(parser)
 	fi := p.Info(parser)
@@ -70,7 +81,7 @@ func runC10(c *an.Ctx) {
 	}
 	if respBuf == nil {
 		c.Undecided("AUTH", parser, parser.Pos(), an.KeyOf(parser, "buffer"), "reply buffer not found", "shape not recognised")
-		return
+		return nil, nil
 	}
 	serverKey := fi.Term(parser.Params[2])
 	gcaKey := fi.Term(parser.Params[3])
@@ -150,8 +161,7 @@ func runC10(c *an.Ctx) {
 	c.Count("AUTH", n)
 	c.Floor("AUTH", 1)
 	perServerVerify(c, parser, gcaKey)
-	replyLayout(c, parser, respBuf)
-	bitOrder(c)
+	return parser, respBuf
 }
 
 func isLenMinus(t *an.Term, k int64) bool {
@@ -341,6 +351,19 @@ func perServerVerify(c *an.Ctx, parser *ssa.Function, gcaKey *an.Term) {
 		}
 		c.Check(rejects, "AUTH", parser, call.Pos(), key+":rejects", "an entry whose verification fails makes the parser return an error", "false edge of the branch on the verification result")
 	}
+	// every entry is verified: no path through the loop body avoids all the per-entry verifications, and the loop is not left early
+	if len(calls) > 0 {
+		vb := map[*ssa.BasicBlock]bool{}
+		for _, call := range calls {
+			vb[call.Block()] = true
+		}
+		if l := innermostLoopOf(parser, calls[0].Block()); l != nil {
+			okExit, why := l.noSilentEarlyExit(fi)
+			c.Check(l.everyIterationThroughAny(vb) && okExit, "AUTH", parser, calls[0].Pos(), an.KeyOf(parser, "entry-verify:every-entry"), "a GCA verification is executed for every entry of the list (no path through the loop body skips it, and the loop is left only at its end or with an error)", "no path from the loop header back to it avoids the Verify calls; "+why)
+		} else {
+			c.Undecided("AUTH", parser, calls[0].Pos(), an.KeyOf(parser, "entry-verify:every-entry"), "the per-entry verification is not inside a loop", "shape not recognised")
+		}
+	}
 	c.Count("AUTH-entries", n)
 	c.Floor("AUTH-entries", 2)
 	// the successful return happens only after the verification loop ran over all parsed entries:
@@ -436,6 +459,98 @@ func replyLayout(c *an.Ctx, parser *ssa.Function, respBuf *an.Term) {
 		c.Check(wrote[w], "CODEC", handler, handler.Pos(), an.KeyOf(handler, "writes:"+w), "the server writes the fixed reply region ["+w+"] (client offset + 2-byte length prefix)", "constant-bound slices of the reply buffer: "+keysOf(wrote))
 	}
 	c.Count("CODEC", 8)
+	signedSpan(c, handler)
+	// every element of the authorized-server list is appended to the reply
+	okAll, nLoops := true, 0
+	why := ""
+	for _, l := range loopsOf(handler) {
+		// the loop that ranges over gcaServers.servers: it contains an append to the reply whose data mentions the list element
+		var app *ssa.Call
+		for _, fb := range handler.Blocks {
+			if !l.body[fb] {
+				continue
+			}
+			for _, in := range fb.Instrs {
+				if call, ok := in.(*ssa.Call); ok {
+					if bi, ok := call.Call.Value.(*ssa.Builtin); ok && bi.Name() == "append" {
+						if inner := innermostLoopOf(handler, fb); inner != nil && inner.header == l.header {
+							app = call
+						}
+					}
+				}
+			}
+		}
+		if app == nil {
+			continue
+		}
+		ranges := false
+		for _, in := range l.header.Instrs {
+			for _, op := range in.Operands(nil) {
+				if *op != nil && strings.Contains(hfi.Term(*op).Key(), "gcaServers.servers") {
+					ranges = true
+				}
+			}
+		}
+		if !ranges {
+			continue
+		}
+		nLoops++
+		okExit, w := l.noSilentEarlyExit(hfi)
+		if !l.everyIteration(app.Block()) || !okExit {
+			okAll = false
+			why = "append at " + p.Pos(app.Pos()) + " is not on every path through the loop body; " + w
+		}
+	}
+	c.Check(okAll && nLoops > 0, "CODEC", handler, handler.Pos(), an.KeyOf(handler, "all-servers-sent"), "every entry of the authorized-server list (banned ones included: the device must learn of bans) is appended to the reply: no path through the loop skips the append", fmt.Sprintf("%d list loops; %s", nLoops, why))
+}
+
+// signedSpan: what the server sends is B | S where S = Sign(B[2:], server key)
+// for the very B that is sent: the signature covers every byte of the reply
+// after the length prefix (which the client strips) and before the signature
+// itself - the span the client verifies (reply[:len-64]).
+func signedSpan(c *an.Ctx, handler *ssa.Function) {
+	p := c.P
+	fi := p.Info(handler)
+	found := false
+	for _, b := range handler.Blocks {
+		for _, in := range b.Instrs {
+			call, ok := in.(*ssa.Call)
+			if !ok || !call.Call.IsInvoke() || call.Call.Method.Name() != "Write" || len(call.Call.Args) != 1 {
+				continue
+			}
+			w := fi.Term(call.Call.Args[0])
+			if w.K != an.KCall || w.Callee() != "builtin.append" || len(w.A) != 2 {
+				continue
+			}
+			B, S := w.A[0], w.A[1]
+			// S is a slice of a local array whose content is the result of glow.Sign
+			if S.K != an.KSlice || S.A[0].K != an.KAlloc {
+				continue
+			}
+			al, isAl := S.A[0].Val.(*ssa.Alloc)
+			if !isAl {
+				continue
+			}
+			var at ssa.Instruction = call
+			if ai, ok := w.Val.(ssa.Instruction); ok {
+				at = ai
+			}
+			ct := fi.ContentAt(al, at)
+			if ct == nil || (ct.K != an.KPure && ct.K != an.KCall) || !strings.HasSuffix(ct.Callee(), "glow.Sign") {
+				continue
+			}
+			found = true
+			want := an.SliceTerm(B, an.ConstTerm("2"), nil)
+			okSpan := ct.A[0].Key() == want.Key()
+			okKey := strings.Contains(ct.A[1].Key(), "staticPrivateKey")
+			c.Check(okSpan, "SIGNED-SPAN", handler, call.Pos(), an.KeyOf(handler, "reply-signed-span"), "the reply that is sent is B | Sign(B[2:]) for the very B that is sent: the signature covers every byte between the length prefix and the signature (the span the client verifies)", "signed "+short(ct.A[0].Key())+"; sent body "+short(B.Key()))
+			c.Check(okKey, "SIGNED-SPAN", handler, call.Pos(), an.KeyOf(handler, "reply-signing-key"), "the reply is signed with the server's static private key (the key whose public half the GCA authorised)", "key "+short(ct.A[1].Key()))
+		}
+	}
+	if !found {
+		c.Undecided("SIGNED-SPAN", handler, handler.Pos(), an.KeyOf(handler, "reply-signed-span"), "no conn.Write of the form append(B, Sign(...)[:]) found in the sync handler", "shape not recognised")
+	}
+	c.Count("SIGNED-SPAN", 2)
 }
 
 // bitOrder: server sets bitfield[i/8] |= 1 << (i%8) iff PowerOutput > 0; client tests bitfield[i/8] & (1 << (i%8)).
